@@ -84,6 +84,12 @@ class SObj:
         return '<obj %s>' % (s.cls,)
 
 
+class SymSet:
+    """a python set literal holding symbolic integers"""
+    def __init__(s, el):
+        s.el = list(el)
+
+
 class LocalFn:
     """closure of a nested def / lambda"""
     def __init__(s, node, env):
@@ -125,7 +131,8 @@ class SuperObj:
 
 CMP = {ast.Eq: operator.eq, ast.NotEq: operator.ne, ast.Lt: operator.lt, ast.LtE: operator.le,
        ast.Gt: operator.gt, ast.GtE: operator.ge}
-BIN = {ast.Add: '+', ast.Sub: '-', ast.Mult: '*', ast.Div: '/', ast.FloorDiv: '//', ast.Mod: '%', ast.Pow: '**'}
+BIN = {ast.Add: '+', ast.Sub: '-', ast.Mult: '*', ast.Div: '/', ast.FloorDiv: '//', ast.Mod: '%', ast.Pow: '**',
+       ast.LShift: '<<', ast.RShift: '>>', ast.BitAnd: '&', ast.BitOr: '|', ast.BitXor: '^', ast.MatMult: '@'}
 
 
 class Interp:
@@ -181,13 +188,20 @@ class Interp:
                         v = ast.literal_eval(a.value)
                     except Exception:
                         # an expression over earlier constants (no calls, no attribute access): evaluate it
-                        if any(isinstance(q, (ast.Call, ast.Attribute, ast.Lambda, ast.Subscript)) for q in ast.walk(a.value)):
+                        if any(isinstance(q, (ast.Lambda, ast.Dict, ast.List, ast.Set, ast.ListComp, ast.DictComp, ast.SetComp)) for q in ast.walk(a.value)):
                             continue
+                        calls = [q for q in ast.walk(a.value) if isinstance(q, ast.Call)]
+                        if any(not (isinstance(q.func, ast.Attribute) and isinstance(q.func.value, ast.Name) and q.func.value.id in ('math', 'np', 'numpy'))
+                               for q in calls):
+                            continue          # only pure library functions (math.sqrt(2), ...) are evaluated at module level
                         try:
                             v = s.ev(a.value, {'__globals__': g})
                         except Exception:
                             continue
-                    if isinstance(v, (tuple, str, int, float, frozenset)) or v is None:
+
+                    def immutable(q):
+                        return q is None or isinstance(q, (str, int, float, frozenset, Fr, Sqrt2)) or (isinstance(q, tuple) and all(immutable(r) for r in q))
+                    if immutable(v):
                         g[tn] = v
         return g
 
@@ -204,8 +218,10 @@ class Interp:
             return s.P.TORCH_NS
         if name == 'pywt':
             return s.P.PYWT_NS
-        if name in ('functools',):
+        if name in ('functools', 'warnings', 'itertools', 'collections', 'typing'):
             return NS(name, {})
+        if name == 'math':
+            return s.P.MATH_NS
         raise Unsupported('import %s' % name)
 
     def resolve_from(s, base, name):
@@ -306,6 +322,19 @@ class Interp:
 
     def binop(s, op, a, b):
         P = s.P
+        if isinstance(a, (set, frozenset, SymSet)) or isinstance(b, (set, frozenset, SymSet)):
+            return s.set_op(op, a, b)
+        if op in ('<<', '>>', '&', '|', '^', '@'):
+            if isinstance(a, bool) and isinstance(b, bool) or (isinstance(a, int) and isinstance(b, int)):
+                return {'<<': operator.lshift, '>>': operator.rshift, '&': operator.and_, '|': operator.or_, '^': operator.xor}[op](a, b) \
+                    if op != '@' else (_ for _ in ()).throw(Unsupported('matmul of integers'))
+            if op in ('&', '|') and all(isinstance(q, (bool, z3.BoolRef)) for q in (a, b)):
+                return simp(z3.And(B(a), B(b)) if op == '&' else z3.Or(B(a), B(b)))
+            if op == '<<' and is_conc(a) and isz(b):
+                k = CUR.ctx.forced_value(b)
+                if k is not None and k >= 0:
+                    return a << k
+            raise Unsupported('operator %s on symbolic / tensor operands' % op)
         if isinstance(a, STensor) or isinstance(b, STensor):
             if op == '**':
                 return P.t_pow(a, b)
@@ -401,6 +430,19 @@ class Interp:
                 r = a == b
             return r if isinstance(op, ast.Is) else (not r)
         if isinstance(op, (ast.In, ast.NotIn)):
+            if isinstance(b, PList):
+                if CUR.ctx.decide(I(b.length()) >= 1) is False:
+                    b = []
+                elif b.writes:
+                    raise Unsupported('membership in a symbolic-length list that has been written')
+                else:
+                    b = list(b.base)
+            if isinstance(b, SymSet):
+                b = list(b.el)
+            if isinstance(b, dict) and isz(a):
+                b = list(b)
+            if isinstance(b, (set, frozenset)) and isz(a):
+                b = sorted(b)
             if isinstance(b, s.P.GlobalDict):
                 r = b.contains(a)
             elif isinstance(a, bool) and isinstance(b, (list, tuple)) and any(isz(x) for x in b):
@@ -514,7 +556,9 @@ class Interp:
             return P.class_attr(s, v, attr)
         if isinstance(v, SuperObj):
             return lambda *a, **k: None
-        if isinstance(v, (list, dict, tuple, str)):
+        if isinstance(v, dict) and attr == 'get':
+            return lambda k, default=None: s.dict_lookup(v, k, default)
+        if isinstance(v, (list, dict, tuple, str, set, frozenset)):
             return getattr(v, attr)
         if isinstance(v, P.GlobalDict) or isinstance(v, P.SList):
             return getattr(v, 'm_' + attr)
@@ -535,6 +579,8 @@ class Interp:
             return P.iarr_get(v, k)
         if isinstance(v, P.SList):
             return v.get(k)
+        if isinstance(v, PList):
+            return v.get(k)
         if isinstance(v, P.GlobalDict):
             return v.get(k)
         if isinstance(v, (tuple, list)):
@@ -546,10 +592,45 @@ class Interp:
             if isz(k):
                 raise Unsupported('symbolic index into python sequence')
         if isinstance(v, dict):
-            if k in v:
-                return v[k]
-            raise Raised('KeyError', str(k))
+            return s.dict_lookup(v, k)
         raise Unsupported('subscript %r[%r]' % (v, k))
+
+    def set_op(s, op, a, b):
+        """set algebra where one side may hold symbolic integers: membership of every concrete element is decided (forks paths)"""
+        if isinstance(a, (set, frozenset)) and isinstance(b, (set, frozenset)):
+            return {'-': a - b, '|': a | b, '&': a & b, '^': a ^ b}[op] if op in ('-', '|', '&', '^') else (_ for _ in ()).throw(Unsupported('set ' + op))
+        if isinstance(a, (set, frozenset)) and isinstance(b, SymSet) and op in ('-', '&'):
+            keep = set()
+            for q in sorted(a):
+                inb = CUR.ctx.decide(z3.Or(*[I(q) == I(e) for e in b.el])) if b.el else False
+                if (op == '-' and not inb) or (op == '&' and inb):
+                    keep.add(q)
+            return keep
+        raise Unsupported('set operation %s with symbolic elements' % op)
+
+    def dict_lookup(s, d, k, default=KeyError):
+        """d[k] / d.get(k, default); a symbolic integer key is compared with the keys one by one (python would hash the z3 term)"""
+        if isz(k):
+            if not all(is_conc(q) and not isinstance(q, bool) for q in d):
+                raise Unsupported('symbolic key into a dict with non-integer keys')
+            for q in d:
+                if CUR.ctx.decide(I(k) == q):
+                    return d[q]
+        elif isinstance(k, (STensor, TV)) or any(isz(q) for q in d):
+            raise Unsupported('dict lookup with tensor / symbolic keys')
+        elif k in d:
+            return d[k]
+        if default is KeyError:
+            raise Raised('KeyError', str(k))
+        return default
+
+    def e_Set(s, n, env):
+        el = [s.ev(e, env) for e in n.elts]
+        if all(is_conc(q) or isinstance(q, str) for q in el):
+            return set(el)
+        if all(is_conc(q) or isz(q) for q in el):
+            return SymSet(el)
+        raise Unsupported('set of non-integer symbolic values')
 
     def e_Slice(s, n, env):
         g = lambda e: None if e is None else s.ev(e, env)
@@ -610,7 +691,7 @@ class Interp:
                 if CUR.ctx.decide(I(cnt) >= 1):
                     return PList([s.ev(n.elt, env)], cnt)
                 return []
-        if isinstance(it, dict):
+        if isinstance(it, dict) or type(it).__name__ in ('dict_items', 'dict_keys', 'dict_values', 'zip', 'enumerate', 'reversed', 'map'):
             it = list(it)
         if not isinstance(it, (list, tuple, range)):
             raise Unsupported('comprehension over non-concrete iterable')
@@ -687,7 +768,21 @@ class Interp:
         elif isinstance(t, (ast.Tuple, ast.List)):
             if isinstance(v, STensor):
                 v = t_unbind(v, 0)
+            if isinstance(v, (PList, s.P.SList)):
+                raise Unsupported('unpacking a symbolic-length list')
             v = list(v)
+            star = [q for q, e in enumerate(t.elts) if isinstance(e, ast.Starred)]
+            if star:
+                if len(star) > 1 or len(v) < len(t.elts) - 1:
+                    raise Raised('ValueError', 'unpack: not enough values / two starred targets')
+                q = star[0]
+                n_after = len(t.elts) - q - 1
+                for a, b in zip(t.elts[:q], v[:q]):
+                    s.assign(a, b, env)
+                s.assign(t.elts[q].value, list(v[q:len(v) - n_after]), env)
+                for a, b in zip(t.elts[q + 1:], v[len(v) - n_after:]):
+                    s.assign(a, b, env)
+                return
             if len(v) != len(t.elts):
                 raise Raised('ValueError', 'unpack: expected %d values, got %d' % (len(t.elts), len(v)))
             for a, b in zip(t.elts, v):
@@ -702,6 +797,8 @@ class Interp:
             k = s.ev(t.slice, env)
             if isinstance(obj, list):
                 obj[k] = v
+            elif isinstance(obj, PList):
+                obj.set(k, v)
             elif isinstance(obj, STensor):
                 tset(obj, k, v)
             elif isinstance(obj, s.P.GlobalDict):
@@ -761,7 +858,8 @@ class Interp:
             return
         if isinstance(it, STensor):
             it = t_unbind(it, 0)
-        if isinstance(it, zip):
+        if isinstance(it, zip) or type(it).__name__ in ('dict_items', 'dict_keys', 'dict_values', 'enumerate', 'reversed', 'map',
+                                                        'list_reverseiterator', 'generator', 'dict'):
             it = list(it)
         if not isinstance(it, (list, tuple, range)):
             raise Unsupported('for over %r' % (it,))
@@ -849,7 +947,14 @@ class Interp:
         s.run(n.body, env)
 
     def s_Import(s, n, env):
-        raise Unsupported('import inside function')
+        for al in n.names:
+            env[al.asname or al.name.split('.')[0]] = s.resolve_module(al.name, al.asname is not None)
+
+    def s_ImportFrom(s, n, env):
+        if n.level or n.module is None:
+            raise Unsupported('relative import inside function')
+        for al in n.names:
+            env[al.asname or al.name] = s.resolve_from(n.module, al.name)
 
     # ---------------------------------------------------------------- calls
     def call(s, modkey, qual, args, kw, force_body=False):
@@ -906,14 +1011,18 @@ class Interp:
             env[a.vararg.arg] = ()
         for p, v in zip(params, args):
             env[p] = v
+        extra = {}
         for k, v in kw.items():
             if k not in params:
                 if k in [q.arg for q in a.kwonlyargs]:
                     continue
                 if a.kwarg is None:
                     raise Raised('TypeError', 'unexpected keyword ' + k)
+                extra[k] = v
                 continue
             env[k] = v
+        if a.kwarg is not None:
+            env[a.kwarg.arg] = extra
         for p in params:
             if p not in env:
                 raise Raised('TypeError', '%s() missing argument %s' % (qual, p))
